@@ -203,7 +203,7 @@ fn escape_is_map1(lo: u32, hi: u32) {
     std::mem::forget(input);
 }
 
-//@ harness: o2_2_escape_is_map1_bmp1 props=C02,C08 tier=quick obl=O2.2 timeout=900 mem=12
+//@ harness: o2_2_escape_is_map1_bmp1 props=C02,C08 tier=quick obl=O2.2 timeout=900 mem=20
 //@ desc: escape_html_text on every 1-char string with c < U+0800 (1- and 2-byte chars: all markup characters, C0/C1 controls, Latin) equals replace_html_char(c): the text leaf is built from the per-character escaper and nothing else
 //@ encodes: fragment::text::escape_html_text, fragment::text::replace_html_char
 #[kani::proof]
@@ -212,7 +212,7 @@ fn o2_2_escape_is_map1_bmp1() {
     escape_is_map1(0, 0x7FF);
 }
 
-//@ harness: o2_2_escape_is_map1_bmp3 props=C02,C08 tier=quick obl=O2.2 timeout=900 mem=12
+//@ harness: o2_2_escape_is_map1_bmp3 props=C02,C08 tier=quick obl=O2.2 timeout=900 mem=20
 //@ desc: as o2_2_escape_is_map1_bmp1 for every 3-byte char U+0800..U+FFFF (incl. U+FFFE/U+FFFF and CJK)
 //@ encodes: fragment::text::escape_html_text, fragment::text::replace_html_char
 #[kani::proof]
@@ -221,48 +221,13 @@ fn o2_2_escape_is_map1_bmp3() {
     escape_is_map1(0x800, 0xFFFF);
 }
 
-//@ harness: o2_2_escape_is_map1_astral props=C02,C08 tier=quick obl=O2.2 timeout=900 mem=12
+//@ harness: o2_2_escape_is_map1_astral props=C02,C08 tier=quick obl=O2.2 timeout=900 mem=20
 //@ desc: as o2_2_escape_is_map1_bmp1 for every 4-byte char U+10000..U+10FFFF
 //@ encodes: fragment::text::escape_html_text, fragment::text::replace_html_char
 #[kani::proof]
 #[kani::unwind(12)]
 fn o2_2_escape_is_map1_astral() {
     escape_is_map1(0x10000, 0x10FFFF);
-}
-
-//@ harness: o2_2_escape_is_map2_ascii props=C02,C08 tier=thorough obl=O2.2 timeout=1800 mem=30
-//@ desc: escape_html_text on every string of 2 ASCII chars equals replace_html_char(c1) ++ replace_html_char(c2), in order
-//@ encodes: fragment::text::escape_html_text, fragment::text::replace_html_char
-#[kani::proof]
-#[kani::unwind(12)]
-fn o2_2_escape_is_map2_ascii() {
-    let c1: char = kani::any();
-    let c2: char = kani::any();
-    kani::assume((c1 as u32) < 0x80 && (c2 as u32) < 0x80);
-    let mut input = String::with_capacity(8);
-    input.push(c1);
-    input.push(c2);
-    let got = escape_html_text(&input);
-    let e1 = replace_html_char(c1);
-    let e2 = replace_html_char(c2);
-    let g = got.as_bytes();
-    let a = e1.as_bytes();
-    let b = e2.as_bytes();
-    kani::assume(a.len() <= 10 && b.len() <= 10);
-    kani::cover!(a.len() == 4 && b.len() == 1, "entity followed by raw");
-    assert!(g.len() == a.len() + b.len(), "O2.2 escape_html_text length is the sum");
-    let mut i = 0;
-    while i < a.len() {
-        assert!(g[i] == a[i], "O2.2 first char's escape comes first");
-        i += 1;
-    }
-    let mut j = 0;
-    while j < b.len() {
-        assert!(g[a.len() + j] == b[j], "O2.2 second char's escape comes second");
-        j += 1;
-    }
-    std::mem::forget(got);
-    std::mem::forget(input);
 }
 
 // ---------------------------------------------------------------------------
